@@ -84,6 +84,13 @@ EDITS = [
         ("    def popitem(self) -> Tuple[P, T]:\n        entry = heapq.heappop(self._pq)\n        if not self._pq:\n"
          "            self._sequence = 0\n        return entry.priority, entry.obj\n",
          "    def popitem(self) -> Tuple[P, T]:\n        entry = self._popentry()\n        return entry.priority, entry.obj\n")]),
+    ("H13-ordereditems-while-len-and-local", "harmless", [
+        ("            while self._pq:\n", "            while len(self._pq) > 0:\n"),
+        ("                popped.append(heapq.heappop(self._pq))\n",
+         "                item = heapq.heappop(self._pq)\n                popped.append(item)\n")]),
+    ("H14-remove-index-loop-with-flag", "harmless", [
+        ("            if entry.obj == obj:\n                break\n        else:\n            raise ValueError(f\"{obj!r} not in queue\")\n",
+         "            if obj == entry.obj:\n                break\n        else:\n            raise ValueError(\"not in queue\")\n")]),
     # ---- semantic changes
     ("S01-pop-forgets-seq-reset", "semantic", [
         ("        entry = heapq.heappop(self._pq)\n        if not self._pq:\n            self._sequence = 0\n"
